@@ -437,7 +437,9 @@ static void build_configs(void)
 	for (unsigned i = 0; i < lengthof(starts); i++) {
 		memset(&c, 0, sizeof(c));
 		static char names[16][48]; snprintf(names[i], 48, "c01-n3-prefill%d-adv%d", starts[i].prefill, starts[i].adv);
-		c.name = names[i]; c.nf = 3; c.base = 1000; c.prefill = starts[i].prefill; c.cursor_adv = starts[i].adv; c.aq_limit = starts[i].limit;
+		/* the time base sits on a wrap point: behaviour must not depend on it (a non-cyclic comparison anywhere shows) */
+		static const uint32_t c01bases[] = { 0xfffffffe, 0x7ffffffe, 0xffffffff, 1000, 0xfffffffd, 0x7fffffff, 0xfffffffe, 0x7ffffffd };
+		c.name = names[i]; c.nf = 3; c.base = c01bases[i % 8]; c.prefill = starts[i].prefill; c.cursor_adv = starts[i].adv; c.aq_limit = starts[i].limit;
 		c.ndelta = 2; c.deltas[0] = 1; c.deltas[1] = 2;
 		c.ndt = 2; c.dts[0] = 0; c.dts[1] = 2;
 		c.allow2 = 1; c.with_runa = 1; c.with_kill = 1;
